@@ -25,7 +25,7 @@ type l2Prog struct {
 // l2Plan: corpus harnesses serving a property.
 func l2Plan(prop, tier string) []l2Prog {
 	var ps []l2Prog
-	srcOf := map[string]string{"f10": "f06", "f11": "f07", "f08n": "f04", "f01": "f01", "f03": "f02", "f04": "f02", "f05": "f02", "f06": "f05", "f07": "f05", "f08": "f04",
+	srcOf := map[string]string{"f02": "f01", "f10": "f06", "f11": "f07", "f08n": "f04", "f01": "f01", "f03": "f02", "f04": "f02", "f05": "f02", "f06": "f05", "f07": "f05", "f08": "f04",
 		"p01": "f03", "p02": "f03", "p03": "f03", "p04": "f03", "p05": "f04", "p06": "f05", "p07": "f09"}
 	add := func(entry, name string, as, cs map[int]string) {
 		key := strings.TrimPrefix(entry, "verifHarness_")
@@ -129,7 +129,18 @@ func l2Plan(prop, tier string) []l2Prog {
 			map[int]string{1: "flow returns nil", 2: "both Results hold the reference values", 3: "every task exactly once", 4: "parameters are the providers' values", 5: "Concurrency(2) reaches the scheduler", 6: "one job per task"},
 			map[int]string{1: "non-zero result"})
 	}
+	f02fail := func() {
+		add("verifHarness_f02_fail", "Flow02 with every task allowed to fail or panic (early return with siblings in flight)",
+			map[int]string{}, map[int]string{1: "flow fails", 2: "flow succeeds"})
+	}
 	switch prop {
+	case "C12":
+		f01fail()
+		f02fail()
+		f03()
+		p01()
+		p02()
+		f08()
 	case "C20":
 		f01ok()
 		f01fail()
